@@ -135,6 +135,7 @@ inductive HOp where
   | cpy (i j : Nat)                 -- x[i] = x[j] / x.f_i = x.f_j  (an existing sub-view is assigned)
   | sets (i : Nat) (vs : List Val)  -- x[i:i+k] = vs
   | setf (i : Nat) (ft : Ty) (v : Val)  -- x[i] = <a view of type ft holding v>
+  | seth (i : Nat) (v : Val)             -- x[i] = <an already HASHED view holding v (possibly of an alias subclass)>
   | refused                            -- an argument outside the model's domain that the API must refuse
                                        -- (a NEGATIVE union selector: `change(selector=-1, …)`)
 
@@ -142,6 +143,7 @@ def toHOp : Sexp → Option HOp
   | .list [.atom "cpy", i, j] => do pure (.cpy (← atomNat i) (← atomNat j))
   | .list [.atom "sets", i, .list (.atom "s" :: vs)] => do pure (.sets (← atomNat i) (← toVals vs))
   | .list [.atom "setf", i, ft, v] => do pure (.setf (← atomNat i) (← toTy ft) (← toVal v))
+  | .list [.atom "seth", i, v] => do pure (.seth (← atomNat i) (← toVal v))
   | .list [.atom "chg", .atom sel, v] =>
     if sel.startsWith "-" then some .refused else (toOp (.list [.atom "chg", .atom sel, v])).map .op
   | s => (toOp s).map .op
@@ -189,6 +191,9 @@ def expandHOp (t : Ty) (v : Val) : HOp → Option (List Impl.Op × Nat)
     let ops := vs.zipIdx.map fun (x, k) => Impl.Op.set (i + k) x
     some (ops, (ops.map (costBound t)).sum)
   | .refused => none
+  | .seth i x =>
+    -- the inserted sub-value is hashed already: only the path to it is re-hashed
+    some ([.set i x], Impl.treeDepth t)
   | .setf i ft x =>
     -- a typed argument: an integer view of another width, a vector / byte vector view of another length
     -- is rejected whatever it holds (its repr differs from the element type's); of the same type it is
